@@ -425,6 +425,15 @@ class Exec:
             if m:
                 dst, callee, args, ret = m
                 argv = [self.operand(env, a) for a in split_top(args)] if args.strip() else []
+                # a callee that receives a `&mut` argument may return something different each time:
+                # its opaque result is keyed by the call's ordinal on this path as well
+                self._stateful = None
+                for a in split_top(args) if args.strip() else []:
+                    lm = re.search(r"(_\d+)$", a.strip())
+                    if lm and self.fn.locals.get(lm.group(1), "").strip().startswith("&mut"):
+                        n = sum(1 for c in env.get("#calls", ()) if c == callee.strip())
+                        self._stateful = n
+                        break
                 if ret is None:
                     # diverging call (panic): reaching it is a violation
                     self.obligations.append({"fn": self.fn.name, "block": bb, "kind": "panic", "msg": callee.strip(), "pc": list(pc), "neg": "true"})
@@ -456,6 +465,8 @@ class Exec:
         ty = self.fn.locals.get(dst.strip(), "()") if dst else "()"
         c = self.ctx.contracts
         argkey = ",".join(self.key(a) for a in argv)
+        if getattr(self, "_stateful", None):
+            argkey += f"#call{self._stateful}"
         handler = c.lookup(callee)
         if handler is None:
             raise Unsupported(f"call to {callee} has no contract (in {self.fn.name})")
